@@ -75,7 +75,7 @@ def check(res, U, p, P, W, rep):
         res.violation("shape", f"{where}: returned {type(D).__name__}", **tags)
         return
     lim = [lib.to_frac(x) for x in D.knotvector.limits]
-    ok_lim = (lim == [U[0], U[-1]]) if rep == "frac" else all(lib.close(g, e, 1e-12) for g, e in zip(lim, [U[0], U[-1]]))
+    ok_lim = (lim == [U[0], U[-1]]) if rep in ("frac", "int") else all(lib.close(g, e, 1e-12) for g, e in zip(lim, [U[0], U[-1]]))
     if not ok_lim:
         res.violation("interval", f"{where}: derivative lives on {D.knotvector.limits}", **tags)
         return
@@ -116,6 +116,10 @@ def run_case(case, res):
         check(res, U, p, e, None, "frac")
     for P, rep in ((gen, "frac"), (gen2, "frac"), (gen, "float"), (gen2, "float"), (gen, "npfloat")):
         check(res, U, p, P, None, rep)
+    if all(k.denominator == 1 for k in U):
+        check(res, U, p, gen, None, "int")  # integer knots and integer control points
+        for e in al.unit_vectors(n):
+            check(res, U, p, e, None, "int")
     if rat:
         gw = al.generic_weights(n)
         check(res, U, p, gen, gw, "frac")
